@@ -12,21 +12,32 @@
 //	<X>OrDefault <typed value> => ok:<value>
 //	JSONScan <target#>         => ok:<json> | err:…     ju=<what encoding/json says for the held bytes>
 //
+// Held values come in three flavours of one and the same kind: the predeclared type (`str:12`), a type the
+// harness defines (`Nstr:12` = MyStr — library code can reach it through reflection only) and a defined type of
+// the STANDARD LIBRARY (`Lstr:12` = json.Number, `Lbytes:` = json.RawMessage, `Qbytes:` = sql.RawBytes,
+// `Lint64:` = time.Duration, `Lint:` = time.Month, `Luint32:` = fs.FileMode, `Luint:` = reflect.Kind) — the
+// only flavour an arm `case json.Number:` of a type switch in value.go can ever match. What decoders and
+// database drivers hand out (json.Decoder.UseNumber, sql.RawBytes, …) is of this flavour.
+//
 // Oracle fields are computed with strconv / encoding/json directly (never through AnyValue):
 // pf32/pf64 = strconv.ParseFloat(s, 32|64), n32/n64 = float32 of those, w32 = float64(held float32),
 // ff = strconv.FormatFloat(held, 'f', 10, 32|64).
 package main
 
 import (
+	"database/sql"
 	"encoding/json"
 	"errors"
 	"flag"
 	"fmt"
+	"io/fs"
 	"math"
 	"math/big"
 	"os"
+	"reflect"
 	"strconv"
 	"strings"
+	"time"
 
 	"github.com/ecodeclub/ekit"
 	"github.com/ecodeclub/ekit/internal/errs"
@@ -105,6 +116,33 @@ func splitColon(s string) (string, string) {
 }
 
 // ---- held values ----
+// libInt: the standard library's defined types of integer kind (flavour L)
+func libInt(kind string, p string) any {
+	switch kind {
+	case "int64":
+		v, err := strconv.ParseInt(p, 10, 64)
+		if err == nil {
+			return time.Duration(v)
+		}
+	case "int":
+		v, err := strconv.ParseInt(p, 10, 64)
+		if err == nil {
+			return time.Month(v)
+		}
+	case "uint32":
+		v, err := strconv.ParseUint(p, 10, 32)
+		if err == nil {
+			return fs.FileMode(v)
+		}
+	case "uint":
+		v, err := strconv.ParseUint(p, 10, 64)
+		if err == nil {
+			return reflect.Kind(v)
+		}
+	}
+	panic("bad held value L" + kind + ":" + p)
+}
+
 func mkInt(kind string, named bool, p string) any {
 	if strings.HasPrefix(kind, "u") {
 		v, err := strconv.ParseUint(p, 10, 64)
@@ -175,13 +213,18 @@ func mkInt(kind string, named bool, p string) any {
 
 var sliceTags = []string{"ints", "strs", "nilints", "bytess", "int8s", "empty"}
 var otherTags = []string{"ptrint", "ptrstr", "struct", "ptrstruct", "nilptr", "nilmap", "map", "chan", "func", "nilfunc",
-	"array", "uintptr", "complex", "err", "stringer", "ptrbytes", "nilchan", "ptrnilstruct"}
+	"array", "uintptr", "complex", "err", "stringer", "ptrbytes", "nilchan", "ptrnilstruct",
+	// what decoders / database drivers hand out besides the scalar kinds
+	"nullint64", "nullstring", "invalidnullint64", "time", "bigint", "ptrjsonnum", "ptrstrnum", "ptrrawbytes"}
 
 func mkHeld(tok string) any {
 	k, p := splitColon(tok)
 	named := strings.HasPrefix(k, "N")
 	if named {
 		k = k[1:]
+	}
+	if strings.HasPrefix(k, "L") || strings.HasPrefix(k, "Q") {
+		return mkLib(k[:1], k[1:], p, tok)
 	}
 	switch k {
 	case "nil":
@@ -287,9 +330,47 @@ func mkHeld(tok string) any {
 			return &b
 		case "ptrnilstruct":
 			return (*myStruct)(nil)
+		case "nullint64":
+			return sql.NullInt64{Int64: 300, Valid: true}
+		case "invalidnullint64":
+			return sql.NullInt64{Int64: 7}
+		case "nullstring":
+			return sql.NullString{String: "12", Valid: true}
+		case "time":
+			return time.Unix(12, 0).UTC()
+		case "bigint":
+			return big.NewInt(12)
+		case "ptrjsonnum":
+			n := json.Number("12")
+			return &n
+		case "ptrstrnum":
+			n := "300"
+			return &n
+		case "ptrrawbytes":
+			return &sql.RawBytes{49, 50}
 		}
 	default:
 		return mkInt(k, named, p)
+	}
+	panic("bad held token " + tok)
+}
+
+// mkLib: a held value whose dynamic type is a defined type of the standard library
+func mkLib(flavour, k, p, tok string) any {
+	switch flavour + k {
+	case "Lstr":
+		return json.Number(dec(p))
+	case "Lbytes":
+		return json.RawMessage(append([]byte{}, dec(p)...))
+	case "Lnilbytes":
+		return json.RawMessage(nil)
+	case "Qbytes":
+		return sql.RawBytes(append([]byte{}, dec(p)...))
+	case "Qnilbytes":
+		return sql.RawBytes(nil)
+	}
+	if flavour == "L" {
+		return libInt(k, p)
 	}
 	panic("bad held token " + tok)
 }
@@ -544,23 +625,21 @@ func jsonResult(err error, deref func() any) string {
 
 // the bytes a string-kind / byte-slice-kind held value carries (for the oracle)
 func payload(held any) ([]byte, bool) {
-	switch v := held.(type) {
-	case string:
-		return []byte(v), true
-	case MyStr:
-		return []byte(v), true
-	case []byte:
-		return v, true
-	case MyBytes:
-		return []byte(v), true
-	case []MyByte:
-		b := make([]byte, len(v))
-		for i := range v {
-			b[i] = byte(v[i])
-		}
-		return b, true
+	if s, ok := textOf(held); ok {
+		return []byte(s), true
+	}
+	if rv := reflect.ValueOf(held); rv.IsValid() && rv.Kind() == reflect.Slice && rv.Type().Elem().Kind() == reflect.Uint8 {
+		return append([]byte{}, rv.Bytes()...), true
 	}
 	return nil, false
+}
+
+// the text of a held value of kind string, whatever its type (string, MyStr, json.Number, …)
+func textOf(held any) (string, bool) {
+	if rv := reflect.ValueOf(held); rv.IsValid() && rv.Kind() == reflect.String {
+		return rv.String(), true
+	}
+	return "", false
 }
 
 func pfField(name string, s string, bits int) (string, float64) {
@@ -580,13 +659,8 @@ func oracle(op string, held any) string {
 	var b strings.Builder
 	switch op {
 	case "AsFloat32", "AsFloat64":
-		var s string
-		switch v := held.(type) {
-		case string:
-			s = v
-		case MyStr:
-			s = string(v)
-		default:
+		s, isText := textOf(held)
+		if !isText {
 			return ""
 		}
 		f1, v1 := pfField("pf32", s, 32)
@@ -712,11 +786,30 @@ var malformed = []string{"", "-", "+", "--1", "+-1", "-+1", "++1", " 12", "12 ",
 	"999999999999999999999999999999", "-999999999999999999999999999999", "99999999999999999999x", "300x", "200x", "70000x", "x300",
 	"18446744073709551616x", "1844674407370955161x", "9223372036854775808x", "-9223372036854775809x", "65536x", "256x", "255x", "-129x", "128x"}
 
-func (g *gen) strCase(s string, ops []string) {
-	g.out.Line("new str:%s", enc(s))
+func (g *gen) strCase(s string, ops []string) { g.textCase("str", s, ops) }
+
+// textCase: a held value of kind string and the given flavour ("str", "Nstr" = MyStr, "Lstr" = json.Number)
+func (g *gen) textCase(flavour, s string, ops []string) {
+	g.out.Line("new %s:%s", flavour, enc(s))
 	for _, o := range ops {
 		g.out.Line("%s", o)
 	}
+}
+
+// the flavours of a text holder other than the predeclared string: the same numerals must be read the same
+// way (or refused) whatever type carries them
+var otherText = []string{"Lstr", "Nstr"}
+
+// numerals for the non-predeclared text holders: every numeral within `w` of a limit of an 8- or 16-bit type
+// (the limits of the wider types come with boundaries(), the wide range -70000..70000 is run on `string` only)
+func nearLimits(w int64) []string {
+	var out []string
+	for _, c := range []int64{-32768, -128, 0, 127, 255, 32767, 65535} {
+		for d := -w; d <= w; d++ {
+			out = append(out, strconv.FormatInt(c+d, 10))
+		}
+	}
+	return out
 }
 
 func (g *gen) boundaries() []*big.Int {
@@ -858,6 +951,23 @@ func doGen(tier string, out *vlib.Out) {
 		held = append(held, "str:"+enc(s), "bytes:"+enc(s))
 	}
 	held = append(held, "Nstr:12", "Nstr:"+enc("{\"a\":1}"), "Nbytes:12", "Nebytes:12", "Nbytes:"+enc("[3]"), "Nebytes:")
+	// … and the standard library's defined types of the same kinds (what a decoder / a database driver hands out)
+	for _, s := range []string{"", "0", "12", "-12", "128", "300", "-129", "40000", "4294967296", "-2147483649", "18446744073709551616",
+		"1.5", "1e3", "1e39", "abc", "{\"a\":1}", "\"x\"", "null"} {
+		held = append(held, "Lstr:"+enc(s), "Lbytes:"+enc(s), "Qbytes:"+enc(s))
+	}
+	held = append(held, "Lnilbytes", "Qnilbytes", "Nstr:300", "Nstr:-129", "Nstr:1e39")
+	for _, k := range []string{"int64", "int", "uint32", "uint"} {
+		lo, hi := limits(k)
+		for _, v := range []*big.Int{lo, hi, big.NewInt(0), big.NewInt(1), big.NewInt(5), big.NewInt(300), big.NewInt(40000), big.NewInt(60000000000)} {
+			if v.Cmp(lo) >= 0 && v.Cmp(hi) <= 0 {
+				held = append(held, "L"+k+":"+v.String())
+			}
+		}
+		if lo.Sign() < 0 {
+			held = append(held, "L"+k+":-1", "L"+k+":-129", "L"+k+":-2147483649")
+		}
+	}
 	for _, t := range sliceTags {
 		held = append(held, "slice:"+t)
 	}
@@ -876,6 +986,12 @@ func doGen(tier string, out *vlib.Out) {
 			g.out.Line("%s", o)
 		}
 	}
+	// the same numerals held by a json.Number / a MyStr, near every limit, on every integer accessor
+	for _, fl := range otherText {
+		for _, n := range nearLimits(300) {
+			g.textCase(fl, n, asInts)
+		}
+	}
 	// … and the way back: the exact decimal text of every 8- and 16-bit integer
 	for _, k := range []string{"int8", "uint8", "int16", "uint16"} {
 		lo, hi := limits(k)
@@ -888,15 +1004,22 @@ func doGen(tier string, out *vlib.Out) {
 	// 4. every width boundary, with the notational variants, on every As accessor
 	allAs := append(append([]string{}, asNames...), "String", "Int")
 	for _, b := range g.boundaries() {
-		for _, v := range variants(b) {
+		for i, v := range variants(b) {
 			g.strCase(v, allAs)
+			g.textCase("Lstr", v, asNames)
+			if i == 0 {
+				g.textCase("Nstr", v, asNames)
+			}
 		}
 	}
 	for _, s := range malformed {
 		g.strCase(s, allAs)
-		g.out.Line("new bytes:%s", enc(s))
-		for _, o := range []string{"AsString", "AsBytes", "AsInt8", "Bytes"} {
-			g.out.Line("%s", o)
+		g.textCase("Lstr", s, asNames)
+		for _, h := range []string{"bytes", "Lbytes", "Qbytes"} {
+			g.out.Line("new %s:%s", h, enc(s))
+			for _, o := range []string{"AsString", "AsBytes", "AsInt8", "Bytes"} {
+				g.out.Line("%s", o)
+			}
 		}
 	}
 	// round trip of extreme values of every integer kind through AsString
@@ -917,9 +1040,9 @@ func doGen(tier string, out *vlib.Out) {
 	// 5. floats: text on the float32/float64 accessors
 	for _, s := range floatStrings {
 		g.strCase(s, []string{"AsFloat32", "AsFloat64", "Float32", "AsInt", "AsString"})
-		g.out.Line("new Nstr:%s", enc(s))
-		g.out.Line("AsFloat32")
-		g.out.Line("AsFloat64")
+		for _, fl := range otherText {
+			g.textCase(fl, s, []string{"AsFloat32", "AsFloat64", "AsInt", "AsString"})
+		}
 	}
 	nf := 300
 	if thorough {
@@ -943,6 +1066,9 @@ func doGen(tier string, out *vlib.Out) {
 			s = fmt.Sprintf("%d.%de%d", g.r.Intn(1000), g.r.Intn(100000), g.r.Range(-50, 45))
 		}
 		g.strCase(s, []string{"AsFloat32", "AsFloat64"})
+		if i%3 == 0 {
+			g.textCase(otherText[(i/3)%len(otherText)], s, []string{"AsFloat32", "AsFloat64"})
+		}
 	}
 	for i := 0; i < nf; i++ {
 		g.out.Line("new f32:%x", uint32(g.r.U64()))
@@ -959,7 +1085,11 @@ func doGen(tier string, out *vlib.Out) {
 		nz = 150000
 	}
 	for i := 0; i < nz; i++ {
-		g.strCase(g.fuzzString(), asNames)
+		s := g.fuzzString()
+		g.strCase(s, asNames)
+		if i%4 == 0 {
+			g.textCase(otherText[(i/4)%len(otherText)], s, asNames)
+		}
 	}
 	if thorough {
 		// all 32-bit-boundary neighbourhoods, widely
@@ -973,14 +1103,15 @@ func doGen(tier string, out *vlib.Out) {
 	// 7. JSONScan: payloads x targets x holder kinds
 	payloads := []string{"{\"a\":1}", "[1,2]", "5", "\"x\"", "null", "nul", "", "{", "{\"A\":3,\"B\":\"z\"}", "[1,\"a\"]", "1.5", " 7 ", "\xff"}
 	for _, p := range payloads {
-		for _, h := range []string{"str:", "bytes:", "Nstr:", "Nbytes:", "Nebytes:"} {
+		for _, h := range []string{"str:", "bytes:", "Nstr:", "Nbytes:", "Nebytes:", "Lstr:", "Lbytes:", "Qbytes:"} {
 			g.out.Line("new %s%s", h, enc(p))
 			for t := 0; t < nTargets; t++ {
 				g.out.Line("JSONScan %d", t)
 			}
 		}
 	}
-	for _, h := range []string{"nil", "int:5", "other:ptrbytes", "slice:int8s", "nilbytes", "bool:true", "f64:0"} {
+	for _, h := range []string{"nil", "int:5", "other:ptrbytes", "slice:int8s", "nilbytes", "bool:true", "f64:0", "Lnilbytes", "Qnilbytes",
+		"Lint64:5", "other:ptrjsonnum", "other:ptrrawbytes"} {
 		g.out.Line("new %s", h)
 		for t := 0; t < nTargets; t++ {
 			g.out.Line("JSONScan %d", t)
